@@ -24,6 +24,34 @@ def _nz(noises):
     return listlit([zlist(rank_keys([noise_num(x) for x in z])) for z in noises])
 
 
+def direct_oracle(idx, ut, cs, width, k):
+    """C01 / C02 as stated, on what query returned (cs = candidate positions in the index space of the result)"""
+    picks = [int(i) for i in np.asarray(idx).ravel()]
+    ut = np.asarray(ut, dtype=float)
+    if len(picks) != k:
+        return "batch_length", f"{len(picks)} indices returned, expected {k}"
+    if len(set(picks)) != len(picks):
+        return "duplicate_index", f"indices {picks} are not pairwise distinct"
+    if not set(picks) <= set(cs):
+        return "not_a_candidate", f"indices {picks} are not all candidates {sorted(cs)}"
+    if ut.shape != (k, width):
+        return "utilities_shape", f"utilities shape {ut.shape}, expected {(k, width)}"
+    for i, p in enumerate(picks):
+        nan_expected = [not (j in cs) or j in picks[:i] for j in range(width)]
+        if [bool(v != v) for v in ut[i]] != nan_expected:
+            return "nan_pattern", f"row {i}: NaN pattern {[bool(v != v) for v in ut[i]]}, expected {nan_expected}"
+        if ut[i, p] != np.nanmax(ut[i]):
+            return "pick_not_max", f"row {i}: selected {p} has utility {ut[i, p]}, row maximum {np.nanmax(ut[i])}"
+    return None
+
+
+def _judge(ctx, comp, idx, ut, cs, width, k, rec):
+    res = direct_oracle(idx, ut, cs, width, k)
+    if res:
+        ctx.violation(comp, res[0], res[1], rec, what=f"{comp}: {res[1]} (scripted numeric layer)")
+    return res
+
+
 def coreset_cases(ctx, count):
     from skactiveml.pool import CoreSet
     rng = ctx.rng("coreset")
@@ -75,10 +103,13 @@ def coreset_cases(ctx, count):
                           what="CoreSet returned utilities that are not a finite-or-NaN 2-d array")
             continue
         Dl = listlit([zlist(r) for r in D.tolist()])
+        rec = {"strategy": "CoreSet", "x": x.tolist(), "y": [None if v != v else v for v in y], "candidates_mode": cmode,
+               "candidates": None if cand is None else np.asarray(cand).tolist(), "batch_size": bs, "seed": seed,
+               "returned_indices": np.asarray(idx).tolist()}
+        if _judge(ctx, "CoreSet", idx, ut, mapping, w, k, rec):
+            continue
         terms.append(f"({natlit(w)}, {natlist(mapping)}, {natlist(centers)}, {natlit(k)}, {Dl}, {_nz(noises)}, {_steps(idx, ut)})")
-        meta.append({"x": x.tolist(), "y": [None if v != v else v for v in y], "candidates_mode": cmode,
-                     "candidates": None if cand is None else np.asarray(cand).tolist(), "batch_size": bs, "seed": seed,
-                     "returned_indices": np.asarray(idx).tolist()})
+        meta.append(rec)
         ctx.count("coreset_loop_correspondence")
         ctx.hist["coreset:" + cmode + (":all_equal" if span == 1 else "")] += 1
         if k >= 2 and len(set(pts.tolist())) < len(pts):
@@ -126,10 +157,13 @@ def probcover_cases(ctx, count):
         ut = np.asarray(ut, dtype=float)
         edges = listlit([listlit([blit(b) for b in r]) for r in E.tolist()])
         isc = listlit([blit(i in mapping) for i in range(n)])
+        rec = {"strategy": "ProbCover", "edges": E.astype(int).tolist(), "y": [None if v != v else v for v in y], "candidates_mode": cmode,
+               "candidates": None if cand is None else np.asarray(cand).tolist(), "batch_size": bs, "seed": seed,
+               "returned_indices": np.asarray(idx).tolist()}
+        if _judge(ctx, "ProbCover", idx, ut, mapping, n, k, rec):
+            continue
         terms.append(f"({edges}, {isc}, {natlit(k)}, {_nz(noises)}, {_steps(idx, ut)})")
-        meta.append({"edges": E.astype(int).tolist(), "y": [None if v != v else v for v in y], "candidates_mode": cmode,
-                     "candidates": None if cand is None else np.asarray(cand).tolist(), "batch_size": bs, "seed": seed,
-                     "returned_indices": np.asarray(idx).tolist()})
+        meta.append(rec)
         ctx.count("probcover_loop_correspondence")
         ctx.hist[f"probcover:{cmode}:density{dens}"] += 1
         if k >= 2:
@@ -249,10 +283,13 @@ def oracle_loop_cases(ctx, count):
         noises = [twin.random_state_.random(len(mapping) if cand_space else n) for _ in range(k)]
         ut = np.asarray(ut, dtype=float)
         tab = listlit([listlit([f"(Some {zlit(v)})" for v in r]) for r in table])
+        rec = {"strategy": which, "table": T.tolist(), "y": [None if v != v else v for v in y], "candidates_mode": cmode,
+               "candidates": None if cand is None else np.asarray(cand).tolist(), "batch_size": bs, "seed": seed,
+               "returned_indices": np.asarray(idx).tolist()}
+        if _judge(ctx, which, idx, ut, mapping, n, k, rec):
+            continue
         terms.append(f"({blit(cand_space)}, {natlit(n)}, {natlist(mapping)}, {tab}, {natlit(k)}, {_nz(noises)}, {_steps_scaled(idx, ut, scale)})")
-        meta.append({"strategy": which, "table": T.tolist(), "y": [None if v != v else v for v in y], "candidates_mode": cmode,
-                     "candidates": None if cand is None else np.asarray(cand).tolist(), "batch_size": bs, "seed": seed,
-                     "returned_indices": np.asarray(idx).tolist()})
+        meta.append(rec)
         ctx.count(f"{which}_loop_correspondence")
         ctx.hist[f"{which.lower()}:{cmode}:values{nvals}"] += 1
         if k >= 2:
@@ -305,11 +342,14 @@ def gsx_cases(ctx, count):
         D = np.abs(xcand[:, None] - xall[None, :]).astype(int)
         ut = np.asarray(ut, dtype=float)
         Dl = listlit([zlist(r) for r in D.tolist()])
+        rec = {"strategy": "GreedySamplingX", "x": x.tolist(), "y": [None if v != v else v for v in y], "candidates_mode": cmode,
+               "candidates": None if cand is None else np.asarray(cand).tolist(), "batch_size": bs, "seed": seed,
+               "returned_indices": np.asarray(idx).tolist()}
+        if _judge(ctx, "GreedySamplingX", idx, ut, mapping if mapping is not None else list(range(m)), n if mapping is not None else m, k, rec):
+            continue
         terms.append(f"({Dl}, {natlit(n)}, {natlist(lab)}, {natlist(cidx)}, {natlit(m)}, {natlit(k)}, {_nz(noises)}, "
                      f"{blit(mapping is not None)}, {natlit(n)}, {natlist(mapping or [])}, {_steps(idx, ut)})")
-        meta.append({"x": x.tolist(), "y": [None if v != v else v for v in y], "candidates_mode": cmode,
-                     "candidates": None if cand is None else np.asarray(cand).tolist(), "batch_size": bs, "seed": seed,
-                     "returned_indices": np.asarray(idx).tolist()})
+        meta.append(rec)
         ctx.count("gsx_loop_correspondence")
         ctx.hist[f"gsx:{cmode}:{'cold' if not lab else 'warm'}"] += 1
         if k >= 2:
